@@ -34,6 +34,21 @@ func (it *Interp) fromFP(t *sym.Term, w uint8) Int {
 	return it.fromTerm(it.ctx.App("fp.to_ieee_bv", sym.BVSort(int(w)), t))
 }
 
+// fpNeverNaN: the FP term is the conversion of an integer (or a widening of one), hence never NaN.
+func fpNeverNaN(t *sym.Term) bool {
+	if strings.HasPrefix(t.Op, "app:(_ to_fp_unsigned") {
+		return true
+	}
+	if strings.HasPrefix(t.Op, "app:(_ to_fp") && strings.HasSuffix(t.Op, "RNE") && len(t.Args) == 1 {
+		a := t.Args[0]
+		if a.Sort.K == sym.KBV && a.Sort.W > 0 {
+			return true // from a signed bit-vector
+		}
+		return fpNeverNaN(a) // float -> float conversion
+	}
+	return false
+}
+
 func (it *Interp) floatBin(op token.Token, a, b Int) Val {
 	w := a.W
 	if a.T == nil && b.T == nil {
@@ -90,6 +105,14 @@ func (it *Interp) floatBin(op token.Token, a, b Int) Val {
 	}
 	fs := sym.Sort{K: sym.KBV, W: -int(w)}
 	x, y := it.fp(a), it.fp(b)
+	if x == y && fpNeverNaN(x) {
+		switch op {
+		case token.EQL, token.LEQ, token.GEQ:
+			return Bool{C: true}
+		case token.NEQ, token.LSS, token.GTR:
+			return Bool{C: false}
+		}
+	}
 	switch op {
 	case token.ADD:
 		return it.fromFP(it.ctx.App("fp.add RNE", fs, x, y), w)
@@ -873,6 +896,38 @@ func (it *Interp) builtin(name string, args []Val, c *ssa.CallCommon) Val {
 		ch := args[0].(*ChanObj)
 		it.chanClose(ch)
 		return nil
+	case "SliceData":
+		sl := args[0].(Slice)
+		if sl.Obj == nil {
+			return Ptr{}
+		}
+		return Ptr{Obj: sl.Obj, Off: sl.Off}
+	case "StringData":
+		st := args[0].(Str)
+		vals := make([]Val, st.Len())
+		for i := range vals {
+			vals[i] = st.At(i)
+		}
+		b := it.bytesToSlice(vals, "unsafe.StringData")
+		return Ptr{Obj: b.Obj}
+	case "String":
+		p := args[0].(Ptr)
+		n := int(args[1].(Int).C)
+		if n == 0 || p.Obj == nil {
+			return Str{}
+		}
+		vals := make([]Val, n)
+		for i := range vals {
+			vals[i] = it.getSlot(p.Obj, p.Off+i)
+		}
+		return normStr(Str{B: vals})
+	case "Slice":
+		p := args[0].(Ptr)
+		n := int(args[1].(Int).C)
+		if p.Obj == nil {
+			return Slice{ES: 1}
+		}
+		return Slice{Obj: p.Obj, Off: p.Off, Len: n, Cap: n, ES: 1}
 	case "ssa:wrapnilchk":
 		p := args[0]
 		if pp, ok := p.(Ptr); ok && pp.Obj == nil {
